@@ -79,7 +79,9 @@ Diff(names, t1, t2) == {names[k] : k \in {j \in DOMAIN names : t1[j] # t2[j]}}
 Mon_SameParamsSameHash(t1, d1, t2, d2) == t1 = t2 => d1 = d2      \* deterministic, path independent
 Mon_DiffParamsDiffHash(t1, d1, t2, d2) == t1 # t2 => d1 # d2      \* commits to every listed field
 
-\* decoding a chain info whose embedded hash does not match its fields is rejected
+\* decoding a chain info whose embedded hash does not match its fields is rejected, by
+\* every decoder that receives an embedded hash: Info.UnmarshalJSON (chain_hash) and
+\* InfoFromProto / InfoFromJSON (the packet's hash field)
 \* (orig = the value whose hash is embedded, tampered = the fields actually carried)
 Mon_TamperRejected(orig, tampered, accepted) ==
   accepted => ChainHash(ChainOfInfo(tampered)) = ChainHash(ChainOfInfo(orig))
@@ -118,14 +120,16 @@ C_SetSeed == \E x \in Seeds : Set("seed", x, [val EXCEPT !.seed = x])
 C_SetId == \E x \in Ids : Set("id", x, [val EXCEPT !.id = x])
 C_Via == \E path \in {"json", "proto", "hexjson"} :
             val' = val /\ prev' = val /\ act' = [name |-> "via", path |-> path]
-\* decode a served chain info after changing one field but not the embedded hash
-C_Tamper == \E path \in {"json", "proto", "hexjson"} :
+\* decode a served chain info after changing one field but not the embedded hash; with
+\* strip the embedded hash is removed instead (it is optional in every encoding: packets of
+\* peers that do not fill it must still decode)
+C_Tamper == \E path \in {"json", "proto", "hexjson"}, strip \in BOOLEAN :
               \E f \in {"period", "genesis", "pk", "seed", "id"} :
                 \E x \in (CASE f = "period" -> Periods [] f = "genesis" -> Geneses [] f = "pk" -> Firsts
                             [] f = "seed" -> Seeds [] OTHER -> Ids) :
                   /\ x # val[f]
                   /\ val' = val /\ prev' = val
-                  /\ act' = [name |-> "tamper", path |-> path, field |-> f, nv |-> x]
+                  /\ act' = [name |-> "tamper", path |-> path, field |-> f, nv |-> x, strip |-> strip]
 
 ChainNext == C_SetPeriod \/ C_SetGenesis \/ C_SetPk \/ C_SetSeed \/ C_SetId \/ C_Via \/ C_Tamper
 
@@ -212,7 +216,7 @@ Inv_ViaKeeps == act.name \in {"via", "tamper"} => val = prev
 \* a tampered field of the statement's list always breaks the embedded hash, except the id
 \* moving between "" and "default"
 Inv_TamperDetectable ==
-  act.name = "tamper" =>
+  (act.name = "tamper" /\ ~act.strip) =>
      LET t == [val EXCEPT ![act.field] = act.nv] IN
      (ChainHash(ChainOfInfo(t)) = ChainHash(ChainOfInfo(val))) <=>
         (act.field = "id" /\ IdOrDefault(act.nv) = IdOrDefault(val.id))
